@@ -61,6 +61,16 @@ def cases(tier, seed):
             out.append(('op', fam, ('diag', 'list', (('leaf', a, 0), ('leaf', a, 1)))))
     # every specification the STRICT diagonal constructor accepts yields an operator tagged diagonal/symmetric/square: the tags
     # must hold for whatever is accepted (the refusals are what keeps them true)
+    # lazy inverses: a tag answered by InverseOperator(A) transfers to A (the inverse of an invertible matrix is symmetric /
+    # diagonal / lower or upper triangular / positive or negative definite exactly when the matrix is), so it is decided on A
+    from ..catalogue import other_stokes_programs
+    for fam in ('vec', 'mat', 'stokes', 'tree', 'iquv', 'qu'):
+        for n in FAM[fam]:
+            out.append(('lazyinv', fam, ('leaf', n, 0)))
+            out.append(('lazyinv', fam, ('T', ('leaf', n, 0))))
+    for a, b in (('A', 'D'), ('Spd', 'Tz'), ('Tz', 'D'), ('Nsym', 'Spd')):
+        out.append(('lazyinv', 'vec', ('@', ('leaf', a, 0), ('leaf', b, 1))))
+        out.append(('lazyinv', 'vec', ('+', ('leaf', a, 0), ('leaf', b, 1))))
     from . import c11
     specs = [k for k in c11.cases(tier, seed) if k[0] == 'diag' and k[4]]
     for k in specs:
@@ -144,6 +154,8 @@ def run_case(key, twin=False):
         return _toast()
     if key[0] == 'spec':
         return _spec(key[1])
+    if key[0] == 'lazyinv':
+        return _lazyinv(key[1], key[2])
     _, fam, e = key
     bld = Builder(fam)
     try:
@@ -195,6 +207,64 @@ def run_case(key, twin=False):
     n, r = bad[0]
     return violation(f'{type(op0).__name__} ({show(e)}) carries tag {active} but "{n}" fails for some parameter values', model=(r.model if r is not None else {}),
                      signature=f'c08-{n}:{type(op0).__name__}', kind=n, twin=twin, obligations=nob, tags=active, **common)
+
+
+def _lazyinv(fam, e):
+    from furax._base.core import InverseOperator
+    e = _tuplify(e)
+    bld = Builder(fam)
+    try:
+        op0 = build_concrete(fam, e)
+        xin = op0.in_structure()
+        inv0 = InverseOperator(op0)
+    except Exception:  # noqa: BLE001
+        return ok(obligations=0, nontrivial=False, tag_queries=0, sample=None)     # not square / ill-typed: no inverse, no tag
+    tags = _tags(inv0)
+    tags['orthogonal'] = False
+    active = [t for t, v in tags.items() if v and t != 'square']
+    if tags['square'] and not structs_equal(op0.in_structure(), op0.out_structure()):
+        return violation(f'InverseOperator({show(e)}) is declared square but its operand is not', signature='c08-lazyinv-square', kind='square')
+    if not active:
+        return ok(obligations=0, nontrivial=False, tag_queries=len(tags), sample=None)
+    if 'is_tridiagonal' in active:
+        return inconclusive('tridiagonal tag on a lazy inverse: does not transfer to the operand')
+    if op0.in_size() > 14:
+        return skipped('larger than the bound')
+    ctx = E.Ctx()
+    dec = Decider()
+    assume = bld.assumptions(e)
+    pst = bld.structs(e)
+    x = E.symbols('x', xin)
+    mvx, _, _ = E.run(ctx, lambda p, x: bld.build(e, list(p)).mv(x), [('p', pst, 'sym'), ('x', xin, 'sym')])
+    try:
+        W = linear_matrix(E.flat_elems(mvx, ctx), E.flat_elems(x))
+    except ValueError:
+        return inconclusive('mv of the operand is not a linear form in x (C04)')
+    def det(Mx):
+        k = Mx.shape[0]
+        if k == 1:
+            return Mx[0, 0]
+        acc = Poly()
+        for j in range(k):
+            minor = np.delete(np.delete(Mx, 0, axis=0), j, axis=1)
+            term = Mx[0, j] * det(minor)
+            acc = acc + term if j % 2 == 0 else acc - term
+        return acc
+    assume = list(assume)
+    if W.shape[0] == W.shape[1] and W.shape[0] <= 4:
+        d_ = det(W)
+        assume.append(lambda enc, d_=d_: enc.term(d_) != 0)     # only invertible operands have an inverse to speak of
+    res = _check_matrix(tags, W, op0, ctx, dec, assume, x, op0.in_size())
+    common = dict(prims=sorted(ctx.prims), **dec.stats())
+    nob = common.pop('obligations')
+    bad = [(n, r) for n, r in res if r is None or r.status != 'unsat']
+    if not bad:
+        return ok(obligations=nob, nontrivial=True, sample=dict(operator=f'InverseOperator({show(e)})', tags=active, verdict='unsat (decided on the operand)'), **common)
+    if any(r is not None and r.status == 'unknown' for _, r in bad):
+        return inconclusive('solver unknown: ' + bad[0][0], obligations=nob, **common)
+    n, r = bad[0]
+    return violation(f'InverseOperator({show(e)}) [{fam}] answers {active}, but its operand is not "{n}" for some parameter values (and then neither is the inverse)',
+                     model=(r.model if r is not None else {}), signature=f'c08-lazyinv-{n}:{type(op0).__name__}', kind=n, obligations=nob, tags=active, **common)
 
 
 def _spec_build(k, v):
@@ -309,6 +379,30 @@ def replay(key, model, info):
         return r['status'] == 'violation', r.get('what', 'ok')
     if key[0] == 'spec':
         op = _spec_build(key[1], model_tree(model, 'v', S(*key[1][2])))
+    elif key[0] == 'lazyinv':
+        # the tag is claimed for the inverse; the failing property is evaluated on the inverse of the operand's matrix
+        from furax._base.core import AbstractLinearOperator, InverseOperator
+        import lineax as lx
+        fam, e = key[1], key[2]
+        opnd = Builder(fam).build(e, params_from_model(fam, e, model))
+        M0 = np.asarray(AbstractLinearOperator.as_matrix(opnd), dtype=float)
+        inv = InverseOperator(opnd)
+        try:
+            Mi = np.linalg.inv(M0)
+        except np.linalg.LinAlgError:
+            return False, 'operand singular at the model parameters'
+        x = np.concatenate([np.asarray(l).ravel() for l in jax.tree.leaves(model_tree(model, 'x', opnd.in_structure()))])
+        x = np.linalg.solve(Mi, x) if kind in ('positive_semidefinite', 'negative_semidefinite') else x   # x^T A x = (A x)^T A^-1 (A x)
+        y = M0 @ np.linalg.solve(M0, x) if False else x
+        tagname = {'symmetric': 'is_symmetric', 'diagonal': 'is_diagonal', 'lower triangular': 'is_lower_triangular', 'upper triangular': 'is_upper_triangular',
+                   'positive_semidefinite': 'is_positive_semidefinite', 'negative_semidefinite': 'is_negative_semidefinite'}.get(kind)
+        if tagname is None or not getattr(lx, tagname)(inv):
+            return False, f'tag {kind} is not claimed by the inverse'
+        holds = {'symmetric': lambda: np.allclose(Mi, Mi.T), 'diagonal': lambda: np.allclose(Mi, np.diag(np.diag(Mi))),
+                 'lower triangular': lambda: np.allclose(Mi, np.tril(Mi)), 'upper triangular': lambda: np.allclose(Mi, np.triu(Mi)),
+                 'positive_semidefinite': lambda: float(np.min(np.linalg.eigvalsh((Mi + Mi.T) / 2))) >= -1e-9,
+                 'negative_semidefinite': lambda: float(np.max(np.linalg.eigvalsh((Mi + Mi.T) / 2))) <= 1e-9}[kind]()
+        return (not holds), f'InverseOperator({show(e)}) claims {tagname}; the inverse of the operand matrix {M0.tolist()} {"has" if holds else "does not have"} that property'[:400]
     else:
         _, fam, e = key
         params = params_from_model(fam, e, model)
